@@ -6,6 +6,9 @@
 #endif
 typedef double R;
 #define NOTNAN(x) ((x) == (x))
+/* "the same value" for non-NaN doubles, bit for bit: equal AND the same sign (+0 / -0); needed where the value is
+   fed to an uninterpreted operation afterwards */
+#define SAME(a, b) ((a) == (b) && __CPROVER_signd(a) == __CPROVER_signd(b))
 
 #ifdef R_IS_UF
 /* stubs/real_uf.h: binary +,-,* of R are uninterpreted functions (a generalisation of the IEEE operations) */
@@ -53,7 +56,7 @@ int g_basis_status; const double* gp_low; const double* gp_up; int g_ncols;
 double* gp_out; double v_old, v_new;
 double* gp_vs; double vs_old, vs_new;
 /* enumerator values for loop invariants (the loop-contract side file cannot name C enumerators) */
-int K_P_ON_LOWER, K_P_ON_UPPER, K_P_FIXED, K_P_FREE;
+int K_P_ON_LOWER, K_P_ON_UPPER, K_P_FIXED, K_P_FREE, K_D_FREE, K_D_ON_UPPER, K_D_ON_LOWER, K_D_ON_BOTH, K_D_UNDEFINED;
 int v_st; double v_a, v_b, v_f;   /* ghost copies (set by the harness-side requires through ==; operands are not NaN) */
 
 /* status(): the table of SPxSolverBase<R>::status(), derived from the code */
@@ -72,7 +75,19 @@ void w_vec_scale(double* val, int n, double s)
 __CPROVER_requires(0 < n && n <= CAP && g_n == n && __CPROVER_is_fresh(val, n * sizeof(double)))
 __CPROVER_requires(0 <= g_k && g_k < n && NOTNAN(val[g_k]) && NOTNAN(FMUL(val[g_k], s)))
 __CPROVER_assigns(gp_vs, vs_old, vs_new, __CPROVER_object_whole(val))
-__CPROVER_ensures(val[g_k] == FMUL(__CPROVER_old(val[g_k]), s))
+__CPROVER_ensures(SAME(val[g_k], FMUL(__CPROVER_old(val[g_k]), s)))
+;
+
+/* ASSUMED contracts of two std::vector-based VectorBase members (ROW-representation instances only) */
+void c_vec_copy(double* dst, const double* src, int n)
+__CPROVER_requires(n == g_n && __CPROVER_w_ok(dst, n * sizeof(double)) && __CPROVER_r_ok(src, n * sizeof(double)))
+__CPROVER_assigns(__CPROVER_object_whole(dst))
+__CPROVER_ensures(NOTNAN(src[g_k]) ==> dst[g_k] == src[g_k])
+;
+void c_vec_clear(double* v, int n)
+__CPROVER_requires(n == g_n && __CPROVER_w_ok(v, n * sizeof(double)))
+__CPROVER_assigns(__CPROVER_object_whole(v))
+__CPROVER_ensures(SAME(v[g_k], 0.0))
 ;
 
 #ifdef INST_VECSCALE
@@ -103,7 +118,6 @@ void h_status(void)
 
 #ifdef INST_EXTRACT
 #define IS_DUAL_STATUS(s) ((s) == D_FREE || (s) == D_ON_UPPER || (s) == D_ON_LOWER || (s) == D_ON_BOTH || (s) == D_UNDEFINED)
-#define NOTINIT_RETURNS (!initialized && STATUS_OF(m_status, basis_status) == NO_PROBLEM)   /* getPrimalSol only */
 
 int w_extract(const int* stat, int n, double* a, double* b, double* fvec, const int* bid_info, const int* bid_idx, int dim,
               double* out, int initialized, int rep, int m_status, int basis_status, int sense)
@@ -111,10 +125,17 @@ __CPROVER_requires(0 < n && n <= CAP && 0 < dim && dim <= CAP && g_n == n && g_d
 __CPROVER_requires(__CPROVER_is_fresh(stat, n * sizeof(int)) && __CPROVER_is_fresh(a, n * sizeof(double)) && __CPROVER_is_fresh(b, n * sizeof(double)))
 __CPROVER_requires(__CPROVER_is_fresh(fvec, dim * sizeof(double)) && __CPROVER_is_fresh(bid_info, dim * sizeof(int)) && __CPROVER_is_fresh(bid_idx, dim * sizeof(int)))
 __CPROVER_requires(__CPROVER_is_fresh(out, n * sizeof(double)))
-__CPROVER_requires(rep == COLUMN)                                    /* column representation (ROW: see unit.json) */
+#ifdef REP_ROW
+__CPROVER_requires(rep == ROW)
+#if !(defined(KIND_DUAL))
+__CPROVER_requires(dim == n)                                         /* ROW representation: dim() == nCols() */
+#endif
+#else
+__CPROVER_requires(rep == COLUMN)
+#endif
 __CPROVER_requires(sense == MINIMIZE || sense == MAXIMIZE)
 __CPROVER_requires(0 <= g_k && g_k < n && -1 <= g_j && g_j < dim)
-#ifdef KIND_PRIMAL
+#if defined(KIND_PRIMAL) || defined(KIND_DUAL)     /* these two return NO_PROBLEM instead of throwing */
 __CPROVER_requires(g_throw_status_ok == (!initialized && STATUS_OF(m_status, basis_status) != NO_PROBLEM))
 #else
 __CPROVER_requires(g_throw_status_ok == !initialized)
@@ -122,14 +143,17 @@ __CPROVER_requires(g_throw_status_ok == !initialized)
 /* values at the ghost index are not NaN (== is used to say "the same value") */
 __CPROVER_requires(NOTNAN(a[g_k]) && NOTNAN(b[g_k]) && NOTNAN(out[g_k]) && (g_j >= 0 ==> NOTNAN(fvec[g_j])))
 __CPROVER_requires(v_a == a[g_k] && v_b == b[g_k] && (g_j >= 0 ==> v_f == fvec[g_j]) && v_st == stat[g_k])
-#ifdef KIND_REDCOST
+#if defined(KIND_REDCOST) && !defined(REP_ROW)
 __CPROVER_requires(NOTNAN(FSUB(a[g_k], b[g_k])) && NOTNAN(FMUL(FSUB(a[g_k], b[g_k]), -1.0)) && NOTNAN(FMUL(0.0, -1.0)))
 #endif
 __CPROVER_assigns(gp_out, v_old, v_new, g_last_stat, gp_vs, vs_old, vs_new, g_basis_status, gp_low, gp_up, g_ncols)
 __CPROVER_assigns(__CPROVER_object_whole(out))                       /* frame: the output vector only */
-/* return value: status(); if not initialised only getPrimalSol may return (NO_PROBLEM), everything else throws */
+/* return value: status(); if not initialised, getPrimalSol and getDualSol return NO_PROBLEM if that is the status and
+   leave the vector alone; every other uninitialised call throws */
 __CPROVER_ensures(__CPROVER_return_value == STATUS_OF(m_status, basis_status))
-#if defined(KIND_PRIMAL)
+#if defined(REP_ROW)
+#include "row_post.h"
+#elif defined(KIND_PRIMAL)
 __CPROVER_ensures(initialized || (STATUS_OF(m_status, basis_status) == NO_PROBLEM && out[g_k] == __CPROVER_old(out[g_k])))
 /* basic at position g_j: the basic solution value; nonbasic: the bound its status names */
 __CPROVER_ensures((initialized && g_j >= 0) ==> out[g_k] == v_f)
@@ -142,11 +166,11 @@ __CPROVER_ensures(g_j >= 0 ==> out[g_k] == -v_f)
 __CPROVER_ensures(g_j < 0 ==> out[g_k] == (stat[g_k] == P_ON_LOWER ? v_a : (stat[g_k] == P_ON_UPPER || stat[g_k] == P_FIXED) ? v_b :
                                           stat[g_k] == P_FREE ? 0.0 : __CPROVER_old(out[g_k])))
 #elif defined(KIND_DUAL)
-__CPROVER_ensures(initialized)
+__CPROVER_ensures(initialized || (STATUS_OF(m_status, basis_status) == NO_PROBLEM && out[g_k] == __CPROVER_old(out[g_k])))
 /* basic rows (dual statuses) have multiplier 0; otherwise coPvec with the sign of the objective sense:
    the solver maximises internally, so y = spxSense() * coPvec, i.e. -coPvec for a minimisation problem */
-__CPROVER_ensures(IS_DUAL_STATUS(stat[g_k]) ==> out[g_k] == 0.0)
-__CPROVER_ensures(!IS_DUAL_STATUS(stat[g_k]) ==> out[g_k] == (sense == MINIMIZE ? -v_a : v_a))
+__CPROVER_ensures((initialized && IS_DUAL_STATUS(stat[g_k])) ==> out[g_k] == 0.0)
+__CPROVER_ensures((initialized && !IS_DUAL_STATUS(stat[g_k])) ==> out[g_k] == (sense == MINIMIZE ? -v_a : v_a))
 #elif defined(KIND_REDCOST)
 __CPROVER_ensures(initialized)
 /* basic columns (dual statuses) have reduced cost 0; otherwise maxObj - pVec, multiplied by -1.0 for a minimisation
@@ -163,6 +187,7 @@ void h_extract(void)
    g_k = nondet_int(); g_j = nondet_int(); g_n = nondet_int(); g_dim = nondet_int(); g_throw_status_ok = nondet_int();
    v_a = nondet_double(); v_b = nondet_double(); v_f = nondet_double(); v_st = nondet_int();
    K_P_ON_LOWER = P_ON_LOWER; K_P_ON_UPPER = P_ON_UPPER; K_P_FIXED = P_FIXED; K_P_FREE = P_FREE;
+   K_D_FREE = D_FREE; K_D_ON_UPPER = D_ON_UPPER; K_D_ON_LOWER = D_ON_LOWER; K_D_ON_BOTH = D_ON_BOTH; K_D_UNDEFINED = D_UNDEFINED;
    w_extract(stat, n, a, b, fvec, bid_info, bid_idx, dim, out, initialized, rep, m_status, basis_status, sense);
    CANARY();
 }
